@@ -127,3 +127,49 @@ func verifRepoIndex(name string) int {
 func verifNewIndexFile(f *verifrt.File) (IndexFile, error) {
 	return verifFile(f.Data(), f.Name()), nil
 }
+
+// ---- exported helpers for harnesses in other packages (cmd/...)
+
+// VerifNewIndexFile: IndexFile over a file of the environment model.
+func VerifNewIndexFile(f *verifrt.File) (IndexFile, error) { return verifNewIndexFile(f) }
+
+// VerifSimpleShardBytes: a one-repository shard (files name -> content, all on branch main) as bytes.
+func VerifSimpleShardBytes(id uint32, repo string, names []string, contents []string) []byte {
+	b, err := NewShardBuilder(verifRepo(id, repo, "main"))
+	if err != nil {
+		panic(err)
+	}
+	for i := range names {
+		if err := b.Add(Document{Name: names[i], Content: []byte(contents[i]), Branches: []string{"main"}, Language: "Go", Category: FileCategoryDefault}); err != nil {
+			panic(err)
+		}
+	}
+	return verifWriteShard(b, repo).data
+}
+
+// VerifCompoundShardBytes: the real merge of the given simple shards, as bytes.
+func VerifCompoundShardBytes(shards ...[]byte) []byte {
+	var ds []*indexData
+	for i, s := range shards {
+		ds = append(ds, verifLoad(verifFile(s, fmt.Sprintf("in%d.zoekt", i))))
+	}
+	return verifWriteShard(verifCompoundBuilder(ds...), "compound").data
+}
+
+// VerifVisibleRepos: what a loader sees in dir: for every *.zoekt file (temporary files are not
+// matched by the loader's glob) the alive repositories in it, as "repo@file" strings, sorted by file.
+func VerifVisibleRepos(dir string) []string {
+	paths, _ := verifrt.Glob(dir + "/*.zoekt")
+	var out []string
+	for _, p := range paths {
+		repos, _, err := ReadMetadataPathAlive(p)
+		if err != nil {
+			out = append(out, "UNREADABLE@"+p)
+			continue
+		}
+		for _, r := range repos {
+			out = append(out, r.Name+"@"+p)
+		}
+	}
+	return out
+}
